@@ -100,3 +100,4 @@ def run(chk):
 def _siblings(chk):
     import siblings
     siblings.rule_sibling_evaluation(chk, "R07c", "aborted")
+    siblings.rule_iteration_stops(chk, "R07d", "aborted")
